@@ -287,6 +287,27 @@ def _values_of(objs, pname):
 
 
 @st.composite
+def focused_time_filter(draw, objs):
+    """A time-range whose ends sit on (or one second next to) the instants of a component that exists in the
+    collection: start, end, start+duration, due, completed, created."""
+    cands = []
+    for o in objs:
+        for comp in ("VEVENT", "VTODO", "VJOURNAL", "VFREEBUSY"):
+            try:
+                pts = relevant_points(o, comp, filterref.UTC)
+            except Exception:
+                continue
+            if pts:
+                cands.append((comp, sorted(pts)))
+    if not cands:
+        return None
+    comp, pts = draw(st.sampled_from(cands))
+    rs = ranges_for(pts)
+    s, e = draw(st.sampled_from(rs))
+    return {"name": "VCALENDAR", "comps": [{"name": comp, "time_range": [s, e]}]}
+
+
+@st.composite
 def focused_text_filter(draw, objs):
     """The plain 'search by text' query of a client: one comp-filter, one prop-filter, one text-match whose
     needle comes from a value that exists in the collection (preferably one with escaped characters)."""
@@ -404,6 +425,10 @@ def gen_case(draw):
         top["props"] = [draw(st.sampled_from([{"name": "VERSION"}, {"name": "CALSCALE"}, {"name": "CALSCALE", "is_not_defined": True}, {"name": "PRODID", "text_match": {"text": "xv", "collation": None, "negate": False}}]))]
     if draw(st.integers(0, 4)) == 0:
         ff = draw(focused_text_filter(objs))  # the plain search-by-text query, needle around an escaped character
+        if ff is not None:
+            top = ff
+    elif draw(st.integers(0, 4)) == 0:
+        ff = draw(focused_time_filter(objs))  # a range that begins or ends at an instant of an existing component
         if ff is not None:
             top = ff
     warm = {"name": "VCALENDAR", "comps": [draw(comp_filter(objs))]}
